@@ -159,6 +159,41 @@ theorem TableOK2.facts {T : Tables} (h : TableOK2 T) : Table2Facts T := by
     have := (List.all_eq_true.mp h6) c hc
     simpa using this
 
+/-- the ten information bits an event body puts into its frame -/
+def dataOf : EventBody → Nat
+  | .pushbutton pc => pc.info
+  | .occupancy a b c d => a.toNat + 2 * b.toNat + 4 * c.toNat + 8 * d.toNat
+  | .light v => v
+  | .unknown x => x
+
+/-- **the frame the standard assigns to an object** (IEC 62386-102 §7: `YAAAAAAS`
+address byte then opcode/level; Table 16: fixed first byte then data; -103 §7:
+address byte with bit 16 = 1, instance byte, opcode; Table 22: three fixed/data
+bytes; Table 3: event source bits then ten information bits) -/
+def frameOf : Cmd → Nat
+  | .generic _ d => d
+  | .unknownGear d => d
+  | .unknownDevice d => d
+  | .standard c a p => 512 * Addr.addrByte a + 256 + c.cmdval + p
+  | .dapc a p => 512 * Addr.addrByte a + p
+  | .special c p => c.cmdval * 256 + p
+  | .shortSpecial c none => c.cmdval * 256 + 0xff
+  | .shortSpecial c (some a) => c.cmdval * 256 + (2 * a + 1)
+  | .initialise c true none => c.cmdval * 256 + 0
+  | .initialise c false none => c.cmdval * 256 + 0xff
+  | .initialise c _ (some a) => c.cmdval * 256 + (2 * a + 1)
+  | .devStd c a => 131072 * Addr.addrByte a + 0x1FE00 + c.opcode
+  | .devInst c a i => 131072 * Addr.addrByte a + 65536 + 256 * i.byte + c.opcode
+  | .devSpecial c p1 p2 => (c.addr * 256 + p1) * 256 + p2
+  | .event _ t src body => srcBits t src + dataOf body
+  | .unknownEvent t src d => srcBits t.toNat src + d
+  | .ambiguous sa inum d => srcBits 0 (.deviceInstance sa inum) + d
+
+def bitsOf : Cmd → Nat
+  | .generic b _ => b
+  | .unknownGear _ | .standard .. | .dapc .. | .special .. | .shortSpecial .. | .initialise .. => 16
+  | _ => 24
+
 /-- decoding of a 16-bit frame with the standard dispatch order -/
 theorem decode16 (T : Tables) (hT : Table2Facts T) (d dt : Nat) (m : Option InstMap) :
     decode T 16 d dt m =
@@ -172,7 +207,7 @@ theorem decode16 (T : Tables) (hT : Table2Facts T) (d dt : Nat) (m : Option Inst
 
 theorem std_roundtrip (T : Tables) (hT : Table2Facts T) (c : StdClass) (a : Addr) (p : Nat)
     (m : Option InstMap) (h : WF T (.standard c a p)) :
-    ∃ d, encode (.standard c a p) = .ok ⟨16, d⟩ ∧ decode T 16 d c.dt m = .standard c a p := by
+    encode (.standard c a p) = .ok ⟨16, frameOf (.standard c a p)⟩ ∧ decode T 16 (frameOf (.standard c a p)) c.dt m = .standard c a p := by
   obtain ⟨hmem, hv, hg, hp⟩ := h
   have hok := hT.base.std _ hmem
   simp only [stdEntryOK, Bool.and_eq_true, decide_eq_true_eq] at hok
@@ -182,7 +217,8 @@ theorem std_roundtrip (T : Tables) (hT : Table2Facts T) (c : StdClass) (a : Addr
   cases hh : c.hasparam with
   | true =>
     simp only [hh, if_true, Bool.and_eq_true, beq_iff_eq, decide_eq_true_eq] at hrel hp
-    refine ⟨512 * Addr.addrByte a + 256 + c.cmdval + p, ?_, ?_⟩
+    show encode _ = .ok ⟨_, 512 * Addr.addrByte a + 256 + c.cmdval + p⟩ ∧ decode T _ (512 * Addr.addrByte a + 256 + c.cmdval + p) _ _ = _
+    refine ⟨?_, ?_⟩
     · simp only [encode, hh, if_true, bind, Except.bind]
       rw [rangeCheck_ok _ 15 hp, or3 c.cmdval p hc (by omega) hrel.1.1,
         newFrame_ok 16 _ (by omega) (by simp; omega)]
@@ -205,7 +241,8 @@ theorem std_roundtrip (T : Tables) (hT : Table2Facts T) (c : StdClass) (a : Addr
   | false =>
     simp only [hh, Bool.false_eq_true, if_false, beq_iff_eq] at hrel hp
     subst hp
-    refine ⟨512 * Addr.addrByte a + 256 + c.cmdval, ?_, ?_⟩
+    show encode _ = .ok ⟨_, 512 * Addr.addrByte a + 256 + c.cmdval⟩ ∧ decode T _ (512 * Addr.addrByte a + 256 + c.cmdval) _ _ = _
+    refine ⟨?_, ?_⟩
     · simp only [encode, hh, Bool.false_eq_true, if_false, bind, Except.bind, Nat.or_zero, pure,
         Except.pure]
       rw [or_256 c.cmdval hc, newFrame_ok 16 _ (by omega) (by simp; omega)]
@@ -226,10 +263,11 @@ theorem std_roundtrip (T : Tables) (hT : Table2Facts T) (c : StdClass) (a : Addr
 
 theorem dapc_roundtrip (T : Tables) (hT : Table2Facts T) (a : Addr) (p dt : Nat)
     (m : Option InstMap) (h : WF T (.dapc a p)) :
-    ∃ d, encode (.dapc a p) = .ok ⟨16, d⟩ ∧ decode T 16 d dt m = .dapc a p := by
+    encode (.dapc a p) = .ok ⟨16, frameOf (.dapc a p)⟩ ∧ decode T 16 (frameOf (.dapc a p)) dt m = .dapc a p := by
   obtain ⟨hv, hg, hp⟩ := h
   have hb := Addr.addrByte_lt a hv
-  refine ⟨512 * Addr.addrByte a + p, ?_, ?_⟩
+  show encode _ = .ok ⟨_, 512 * Addr.addrByte a + p⟩ ∧ decode T _ (512 * Addr.addrByte a + p) _ _ = _
+  refine ⟨?_, ?_⟩
   · simp only [encode, bind, Except.bind]
     rw [rangeCheck_ok _ 255 hp, newFrame_ok 16 _ (by omega) (by simp; omega)]
     simp only []
@@ -278,7 +316,7 @@ theorem decode16_special (T : Tables) (hT : Table2Facts T) (c : SpecialClass)
 
 theorem special_roundtrip (T : Tables) (hT : Table2Facts T) (c : SpecialClass) (p dt : Nat)
     (m : Option InstMap) (h : WF T (.special c p)) :
-    ∃ d, encode (.special c p) = .ok ⟨16, d⟩ ∧ decode T 16 d dt m = .special c p := by
+    encode (.special c p) = .ok ⟨16, frameOf (.special c p)⟩ ∧ decode T 16 (frameOf (.special c p)) dt m = .special c p := by
   obtain ⟨hmem, hkind, hp⟩ := h
   have hok := hT.base.special _ hmem
   simp only [specialEntryOK, Bool.and_eq_true, beq_iff_eq, decide_eq_true_eq, bne_iff_ne, ne_eq,
@@ -289,7 +327,8 @@ theorem special_roundtrip (T : Tables) (hT : Table2Facts T) (c : SpecialClass) (
   cases hh : c.hasparam with
   | true =>
     simp only [hh, if_true] at hp
-    refine ⟨c.cmdval * 256 + p, ?_, ?_⟩
+    show encode _ = .ok ⟨_, c.cmdval * 256 + p⟩ ∧ decode T _ (c.cmdval * 256 + p) _ _ = _
+    refine ⟨?_, ?_⟩
     · simp only [encode, hh, if_true, bind, Except.bind]
       rw [rangeCheck_ok _ 255 hp]
       simp only []
@@ -300,7 +339,8 @@ theorem special_roundtrip (T : Tables) (hT : Table2Facts T) (c : SpecialClass) (
   | false =>
     simp only [hh, Bool.false_eq_true, if_false] at hp
     subst hp
-    refine ⟨c.cmdval * 256 + 0, ?_, ?_⟩
+    show encode _ = .ok ⟨_, c.cmdval * 256 + 0⟩ ∧ decode T _ (c.cmdval * 256 + 0) _ _ = _
+    refine ⟨?_, ?_⟩
     · simp only [encode, hh, Bool.false_eq_true, if_false, bind, Except.bind, pure, Except.pure]
       exact newFrame_bytes2 c.cmdval 0 hlt (by omega)
     · rw [decode16_special T hT c hmem 0 (by omega)]
@@ -308,7 +348,7 @@ theorem special_roundtrip (T : Tables) (hT : Table2Facts T) (c : SpecialClass) (
 
 theorem shortSpecial_roundtrip (T : Tables) (hT : Table2Facts T) (c : SpecialClass)
     (addr : Option Nat) (dt : Nat) (m : Option InstMap) (h : WF T (.shortSpecial c addr)) :
-    ∃ d, encode (.shortSpecial c addr) = .ok ⟨16, d⟩ ∧ decode T 16 d dt m = .shortSpecial c addr := by
+    encode (.shortSpecial c addr) = .ok ⟨16, frameOf (.shortSpecial c addr)⟩ ∧ decode T 16 (frameOf (.shortSpecial c addr)) dt m = .shortSpecial c addr := by
   obtain ⟨hmem, hkind, ha⟩ := h
   have hok := hT.base.special _ hmem
   simp only [specialEntryOK, Bool.and_eq_true, beq_iff_eq, decide_eq_true_eq, bne_iff_ne, ne_eq,
@@ -318,7 +358,8 @@ theorem shortSpecial_roundtrip (T : Tables) (hT : Table2Facts T) (c : SpecialCla
   have hge : ¬ (256 ≤ c.cmdval) := by omega
   cases addr with
   | none =>
-    refine ⟨c.cmdval * 256 + 0xff, ?_, ?_⟩
+    show encode _ = .ok ⟨_, c.cmdval * 256 + 0xff⟩ ∧ decode T _ (c.cmdval * 256 + 0xff) _ _ = _
+    refine ⟨?_, ?_⟩
     · simp only [encode, bind, Except.bind, pure, Except.pure]
       exact newFrame_bytes2 c.cmdval 0xff hlt (by omega)
     · rw [decode16_special T hT c hmem 0xff (by omega)]
@@ -326,7 +367,8 @@ theorem shortSpecial_roundtrip (T : Tables) (hT : Table2Facts T) (c : SpecialCla
       simp [specialClassFromFrame, slice, getSliceRaw_eq, hop 255 (by omega), hkind, this]
   | some a =>
     have ha' : a ≤ 63 := ha a rfl
-    refine ⟨c.cmdval * 256 + (2 * a + 1), ?_, ?_⟩
+    show encode _ = .ok ⟨_, c.cmdval * 256 + (2 * a + 1)⟩ ∧ decode T _ (c.cmdval * 256 + (2 * a + 1)) _ _ = _
+    refine ⟨?_, ?_⟩
     · simp only [encode, bind, Except.bind, pure, Except.pure]
       rw [rangeCheck_ok _ 63 ha']
       simp only [shl1_or1]
@@ -343,7 +385,7 @@ theorem shortSpecial_roundtrip (T : Tables) (hT : Table2Facts T) (c : SpecialCla
 
 theorem initialise_roundtrip (T : Tables) (hT : Table2Facts T) (c : SpecialClass) (b : Bool)
     (addr : Option Nat) (dt : Nat) (m : Option InstMap) (h : WF T (.initialise c b addr)) :
-    ∃ d, encode (.initialise c b addr) = .ok ⟨16, d⟩ ∧ decode T 16 d dt m = .initialise c b addr := by
+    encode (.initialise c b addr) = .ok ⟨16, frameOf (.initialise c b addr)⟩ ∧ decode T 16 (frameOf (.initialise c b addr)) dt m = .initialise c b addr := by
   obtain ⟨hmem, hkind, ha⟩ := h
   have hok := hT.base.special _ hmem
   simp only [specialEntryOK, Bool.and_eq_true, beq_iff_eq, decide_eq_true_eq, bne_iff_ne, ne_eq,
@@ -355,14 +397,16 @@ theorem initialise_roundtrip (T : Tables) (hT : Table2Facts T) (c : SpecialClass
   | none =>
     cases b with
     | true =>
-      refine ⟨c.cmdval * 256 + 0, ?_, ?_⟩
+      show encode _ = .ok ⟨_, c.cmdval * 256 + 0⟩ ∧ decode T _ (c.cmdval * 256 + 0) _ _ = _
+      refine ⟨?_, ?_⟩
       · simp only [encode, bind, Except.bind, pure, Except.pure, Option.isSome_none, Bool.and_false,
           Bool.false_eq_true, if_false, if_true]
         exact newFrame_bytes2 c.cmdval 0 hlt (by omega)
       · rw [decode16_special T hT c hmem 0 (by omega)]
         simp [specialClassFromFrame, slice, getSliceRaw_eq, hop 0 (by omega), hkind, hge]
     | false =>
-      refine ⟨c.cmdval * 256 + 0xff, ?_, ?_⟩
+      show encode _ = .ok ⟨_, c.cmdval * 256 + 0xff⟩ ∧ decode T _ (c.cmdval * 256 + 0xff) _ _ = _
+      refine ⟨?_, ?_⟩
       · simp only [encode, bind, Except.bind, pure, Except.pure, Option.isSome_none, Bool.and_false,
           Bool.false_eq_true, if_false]
         exact newFrame_bytes2 c.cmdval 0xff hlt (by omega)
@@ -372,7 +416,8 @@ theorem initialise_roundtrip (T : Tables) (hT : Table2Facts T) (c : SpecialClass
   | some a =>
     obtain ⟨ha', hb⟩ := ha a rfl
     subst hb
-    refine ⟨c.cmdval * 256 + (2 * a + 1), ?_, ?_⟩
+    show encode _ = .ok ⟨_, c.cmdval * 256 + (2 * a + 1)⟩ ∧ decode T _ (c.cmdval * 256 + (2 * a + 1)) _ _ = _
+    refine ⟨?_, ?_⟩
     · simp only [encode, bind, Except.bind, pure, Except.pure, Bool.false_and, Bool.false_eq_true,
         if_false]
       rw [rangeCheck_ok _ 63 ha']
@@ -456,13 +501,14 @@ theorem deviceFromFrame_eq (T : Tables) (hT : Table2Facts T) (d : Nat) (h16 : d 
 
 theorem devStd_roundtrip (T : Tables) (hT : Table2Facts T) (c : DevClass) (a : Addr) (dt : Nat)
     (m : Option InstMap) (h : WF T (.devStd c a)) :
-    ∃ d, encode (.devStd c a) = .ok ⟨24, d⟩ ∧ decode T 24 d dt m = .devStd c a := by
+    encode (.devStd c a) = .ok ⟨24, frameOf (.devStd c a)⟩ ∧ decode T 24 (frameOf (.devStd c a)) dt m = .devStd c a := by
   obtain ⟨hmem, hv, hg⟩ := h
   have hok := hT.base.dev _ hmem
   simp only [devEntryOK, Bool.and_eq_true, beq_iff_eq, decide_eq_true_eq] at hok
   obtain ⟨⟨_, hlt⟩, _⟩ := hok
   have hb := Addr.addrByte_lt a hv
-  refine ⟨131072 * Addr.addrByte a + 0x1FE00 + c.opcode, ?_, ?_⟩
+  show encode _ = .ok ⟨_, 131072 * Addr.addrByte a + 0x1FE00 + c.opcode⟩ ∧ decode T _ (131072 * Addr.addrByte a + 0x1FE00 + c.opcode) _ _ = _
+  refine ⟨?_, ?_⟩
   · simp only [encode, bind, Except.bind]
     rw [or_1FE00 _ hlt, newFrame_ok 24 _ (by omega) (by simp; omega)]
     simp only []
@@ -487,7 +533,7 @@ theorem byte_fe_device (i : Inst) (hc : i.Canonical) (h : i.byte = 0xFE) : i = .
 
 theorem devInst_roundtrip (T : Tables) (hT : Table2Facts T) (c : DevClass) (a : Addr) (i : Inst)
     (dt : Nat) (m : Option InstMap) (h : WF T (.devInst c a i)) :
-    ∃ d, encode (.devInst c a i) = .ok ⟨24, d⟩ ∧ decode T 24 d dt m = .devInst c a i := by
+    encode (.devInst c a i) = .ok ⟨24, frameOf (.devInst c a i)⟩ ∧ decode T 24 (frameOf (.devInst c a i)) dt m = .devInst c a i := by
   obtain ⟨hmem, hv, hg, hcan, hnd⟩ := h
   have hok := hT.base.inst _ hmem
   simp only [devEntryOK, Bool.and_eq_true, beq_iff_eq, decide_eq_true_eq] at hok
@@ -495,7 +541,8 @@ theorem devInst_roundtrip (T : Tables) (hT : Table2Facts T) (c : DevClass) (a : 
   have hb := Addr.addrByte_lt a hv
   have hib := Inst.byte_lt i hcan.1
   have hfe : i.byte ≠ 0xFE := fun e => hnd (byte_fe_device i hcan e)
-  refine ⟨131072 * Addr.addrByte a + 65536 + 256 * i.byte + c.opcode, ?_, ?_⟩
+  show encode _ = .ok ⟨_, 131072 * Addr.addrByte a + 65536 + 256 * i.byte + c.opcode⟩ ∧ decode T _ (131072 * Addr.addrByte a + 65536 + 256 * i.byte + c.opcode) _ _ = _
+  refine ⟨?_, ?_⟩
   · simp only [encode, bind, Except.bind]
     rw [or_10000 _ hlt, newFrame_ok 24 _ (by omega) (by simp; omega)]
     simp only []
@@ -546,7 +593,7 @@ theorem mem_specialsOf {l : List DevEntry} {c : DevSpecialClass} (h : DevEntry.s
 
 theorem devSpecial_roundtrip (T : Tables) (hT : Table2Facts T) (c : DevSpecialClass) (p1 p2 dt : Nat)
     (m : Option InstMap) (h : WF T (.devSpecial c p1 p2)) :
-    ∃ d, encode (.devSpecial c p1 p2) = .ok ⟨24, d⟩ ∧ decode T 24 d dt m = .devSpecial c p1 p2 := by
+    encode (.devSpecial c p1 p2) = .ok ⟨24, frameOf (.devSpecial c p1 p2)⟩ ∧ decode T 24 (frameOf (.devSpecial c p1 p2)) dt m = .devSpecial c p1 p2 := by
   obtain ⟨hmem, hk⟩ := h
   have hconc : concrete c = true := by
     cases hkk : c.kind <;> simp [hkk, concrete] at hk ⊢
@@ -599,7 +646,8 @@ theorem devSpecial_roundtrip (T : Tables) (hT : Table2Facts T) (c : DevSpecialCl
     | abstractBase => simp [hkk] at hk
     | custom => simp [hkk] at hk
   obtain ⟨ha, hp1, hp2, henc, hself⟩ := hranges
-  refine ⟨(c.addr * 256 + p1) * 256 + p2, henc, ?_⟩
+  refine ⟨henc, ?_⟩
+  show decode T 24 ((c.addr * 256 + p1) * 256 + p2) dt m = _
   have h16 : ((c.addr * 256 + p1) * 256 + p2) / 65536 % 2 = 1 := by omega
   rw [decode24 T hT, deviceFromFrame_eq T hT _ h16]
   have hpart : Addr.fromFrame T.addrOrder ⟨24, (c.addr * 256 + p1) * 256 + p2⟩ = none := by
@@ -795,13 +843,6 @@ end DaliVerif.Cmd
 namespace DaliVerif.Cmd
 open Frame Spec
 
-/-- the ten information bits an event body puts into its frame -/
-def dataOf : EventBody → Nat
-  | .pushbutton pc => pc.info
-  | .occupancy a b c d => a.toNat + 2 * b.toNat + 4 * c.toNat + 8 * d.toNat
-  | .light v => v
-  | .unknown x => x
-
 theorem occ_value (a b c d : Bool) :
     let x := a.toNat + 2 * b.toNat + 4 * c.toNat + 8 * d.toNat
     x < 16 ∧ (x &&& 1 == 1) = a ∧ (x &&& 2 == 2) = b ∧ (x &&& 4 == 4) = c ∧ (x &&& 8 == 8) = d := by
@@ -809,8 +850,8 @@ theorem occ_value (a b c d : Bool) :
 
 theorem event_roundtrip (T : Tables) (hT : Table2Facts T) (cls : String) (t : Nat) (src : EventSrc)
     (body : EventBody) (dt : Nat) (h : WF T (.event cls t src body)) :
-    ∃ d, encode (.event cls t src body) = .ok ⟨24, d⟩ ∧
-      decode T 24 d dt (mapFor (.event cls t src body)) = .event cls t src body := by
+    encode (.event cls t src body) = .ok ⟨24, frameOf (.event cls t src body)⟩ ∧
+      decode T 24 (frameOf (.event cls t src body)) dt (mapFor (.event cls t src body)) = .event cls t src body := by
   obtain ⟨hs, ht, hbody⟩ := h
   have ht' : srcHasType src = true → t ≤ 31 := fun _ => ht
   have htI : srcHasType src = true → 0 ≤ (t : Int) ∧ (t : Int) ≤ 31 := fun _ => by omega
@@ -834,7 +875,8 @@ theorem event_roundtrip (T : Tables) (hT : Table2Facts T) (cls : String) (t : Na
     obtain ⟨hcls, hpm, et, hem, hek⟩ := hbody
     have hok := hT.base.push _ hpm
     simp only [pushOK, Bool.and_eq_true, beq_iff_eq, decide_eq_true_eq] at hok
-    refine ⟨srcBits t src + pc.info, ?_, ?_⟩
+    show encode _ = .ok ⟨_, srcBits t src + pc.info⟩ ∧ decode T _ (srcBits t src + pc.info) _ _ = _
+    refine ⟨?_, ?_⟩
     · simp only [encode, bind, Except.bind]
       rw [newFrame_ok 24 pc.info (by omega) (by simp; omega)]
       simp only []
@@ -846,7 +888,8 @@ theorem event_roundtrip (T : Tables) (hT : Table2Facts T) (cls : String) (t : Na
   | occupancy a b c d =>
     obtain ⟨et, hem, hek, hname⟩ := hbody
     obtain ⟨hx, f0, f1, f2, f3⟩ := occ_value a b c d
-    refine ⟨srcBits t src + (a.toNat + 2 * b.toNat + 4 * c.toNat + 8 * d.toNat), ?_, ?_⟩
+    show encode _ = .ok ⟨_, srcBits t src + (a.toNat + 2 * b.toNat + 4 * c.toNat + 8 * d.toNat)⟩ ∧ decode T _ (srcBits t src + (a.toNat + 2 * b.toNat + 4 * c.toNat + 8 * d.toNat)) _ _ = _
+    refine ⟨?_, ?_⟩
     · simp only [encode, bind, Except.bind, hnew0]
       rw [hsrc 0 (by omega)]
       simp only [Nat.add_zero]
@@ -860,7 +903,8 @@ theorem event_roundtrip (T : Tables) (hT : Table2Facts T) (cls : String) (t : Na
         hocc, Bool.false_eq_true, f0, f1, f2, f3, hname]
   | light v =>
     obtain ⟨hv, et, hem, hek, hname⟩ := hbody
-    refine ⟨srcBits t src + v, ?_, ?_⟩
+    show encode _ = .ok ⟨_, srcBits t src + v⟩ ∧ decode T _ (srcBits t src + v) _ _ = _
+    refine ⟨?_, ?_⟩
     · simp only [encode, bind, Except.bind, hnew0]
       rw [hsrc 0 (by omega)]
       simp only [Nat.add_zero]
@@ -872,15 +916,16 @@ theorem event_roundtrip (T : Tables) (hT : Table2Facts T) (cls : String) (t : Na
 
 theorem unknownEvent_roundtrip (T : Tables) (hT : Table2Facts T) (t : Int) (src : EventSrc)
     (data dt : Nat) (h : WF T (.unknownEvent t src data)) :
-    ∃ d, encode (.unknownEvent t src data) = .ok ⟨24, d⟩ ∧
-      decode T 24 d dt (mapFor (.unknownEvent t src data)) = .unknownEvent t src data := by
+    encode (.unknownEvent t src data) = .ok ⟨24, frameOf (.unknownEvent t src data)⟩ ∧
+      decode T 24 (frameOf (.unknownEvent t src data)) dt (mapFor (.unknownEvent t src data)) = .unknownEvent t src data := by
   obtain ⟨hs, hd, ht, hunk⟩ := h
   have ht' : srcHasType src = true → t.toNat ≤ 31 := fun h => by have := ht h; omega
   obtain ⟨hlt, hm0⟩ := srcBits_lt t.toNat src hs ht'
   have hmap : MapNames (mapFor (.unknownEvent t src data)) t src := by
     cases src <;> simp [MapNames, mapFor, InstMap.getType]
   have hnew0 : newFrame 24 0 = .ok ⟨24, 0⟩ := newFrame_ok 24 0 (by omega) (by simp)
-  refine ⟨srcBits t.toNat src + data, ?_, ?_⟩
+  show encode _ = .ok ⟨_, srcBits t.toNat src + data⟩ ∧ decode T _ (srcBits t.toNat src + data) _ _ = _
+  refine ⟨?_, ?_⟩
   · simp only [encode, bind, Except.bind, hnew0]
     rw [eventSrc_ok_int 0 t src (by omega) hs ht]
     simp only [Nat.add_zero]
@@ -891,14 +936,15 @@ theorem unknownEvent_roundtrip (T : Tables) (hT : Table2Facts T) (t : Int) (src 
 
 theorem ambiguous_roundtrip (T : Tables) (hT : Table2Facts T) (sa inum data dt : Nat)
     (h : WF T (.ambiguous sa inum data)) :
-    ∃ d, encode (.ambiguous sa inum data) = .ok ⟨24, d⟩ ∧
-      decode T 24 d dt none = .ambiguous sa inum data := by
+    encode (.ambiguous sa inum data) = .ok ⟨24, frameOf (.ambiguous sa inum data)⟩ ∧
+      decode T 24 (frameOf (.ambiguous sa inum data)) dt none = .ambiguous sa inum data := by
   obtain ⟨hsa, hin, hd⟩ := h
   have hs : SrcOK (.deviceInstance sa inum) := ⟨hsa, hin⟩
   have ht' : srcHasType (.deviceInstance sa inum) = true → 0 ≤ 31 := fun _ => by omega
   obtain ⟨hlt, hm0⟩ := srcBits_lt 0 (.deviceInstance sa inum) hs (by intro h; simp [srcHasType] at h)
   have hnew0 : newFrame 24 0 = .ok ⟨24, 0⟩ := newFrame_ok 24 0 (by omega) (by simp)
-  refine ⟨srcBits 0 (.deviceInstance sa inum) + data, ?_, ?_⟩
+  show encode _ = .ok ⟨_, srcBits 0 (.deviceInstance sa inum) + data⟩ ∧ decode T _ (srcBits 0 (.deviceInstance sa inum) + data) _ _ = _
+  refine ⟨?_, ?_⟩
   · simp only [encode, bind, Except.bind, hnew0]
     rw [show ((0 : Int)) = ((0 : Nat) : Int) from rfl,
       eventSrc_ok 0 0 _ (by omega) hs (by intro h; simp [srcHasType] at h)]
@@ -923,22 +969,48 @@ theorem decode_encode (T : Tables) (hT2 : TableOK2 T) (c : Cmd) (h : WF T c) :
   | generic b d => exact absurd h id
   | unknownGear d => exact absurd h id
   | unknownDevice d => exact absurd h id
-  | dapc a p => obtain ⟨d, h1, h2⟩ := dapc_roundtrip T hT a p 0 none h; exact ⟨16, d, h1, h2⟩
-  | standard cc a p => obtain ⟨d, h1, h2⟩ := std_roundtrip T hT cc a p none h; exact ⟨16, d, h1, h2⟩
-  | special cc p => obtain ⟨d, h1, h2⟩ := special_roundtrip T hT cc p 0 none h; exact ⟨16, d, h1, h2⟩
+  | dapc a p => obtain ⟨h1, h2⟩ := dapc_roundtrip T hT a p 0 none h; exact ⟨16, _, h1, h2⟩
+  | standard cc a p => obtain ⟨h1, h2⟩ := std_roundtrip T hT cc a p none h; exact ⟨16, _, h1, h2⟩
+  | special cc p => obtain ⟨h1, h2⟩ := special_roundtrip T hT cc p 0 none h; exact ⟨16, _, h1, h2⟩
   | shortSpecial cc a =>
-    obtain ⟨d, h1, h2⟩ := shortSpecial_roundtrip T hT cc a 0 none h; exact ⟨16, d, h1, h2⟩
+    obtain ⟨h1, h2⟩ := shortSpecial_roundtrip T hT cc a 0 none h; exact ⟨16, _, h1, h2⟩
   | initialise cc b a =>
-    obtain ⟨d, h1, h2⟩ := initialise_roundtrip T hT cc b a 0 none h; exact ⟨16, d, h1, h2⟩
-  | devStd cc a => obtain ⟨d, h1, h2⟩ := devStd_roundtrip T hT cc a 0 none h; exact ⟨24, d, h1, h2⟩
-  | devInst cc a i => obtain ⟨d, h1, h2⟩ := devInst_roundtrip T hT cc a i 0 none h; exact ⟨24, d, h1, h2⟩
+    obtain ⟨h1, h2⟩ := initialise_roundtrip T hT cc b a 0 none h; exact ⟨16, _, h1, h2⟩
+  | devStd cc a => obtain ⟨h1, h2⟩ := devStd_roundtrip T hT cc a 0 none h; exact ⟨24, _, h1, h2⟩
+  | devInst cc a i => obtain ⟨h1, h2⟩ := devInst_roundtrip T hT cc a i 0 none h; exact ⟨24, _, h1, h2⟩
   | devSpecial cc p1 p2 =>
-    obtain ⟨d, h1, h2⟩ := devSpecial_roundtrip T hT cc p1 p2 0 none h; exact ⟨24, d, h1, h2⟩
+    obtain ⟨h1, h2⟩ := devSpecial_roundtrip T hT cc p1 p2 0 none h; exact ⟨24, _, h1, h2⟩
   | event cls t src body =>
-    obtain ⟨d, h1, h2⟩ := event_roundtrip T hT cls t src body 0 h; exact ⟨24, d, h1, h2⟩
+    obtain ⟨h1, h2⟩ := event_roundtrip T hT cls t src body 0 h; exact ⟨24, _, h1, h2⟩
   | unknownEvent t src data =>
-    obtain ⟨d, h1, h2⟩ := unknownEvent_roundtrip T hT t src data 0 h; exact ⟨24, d, h1, h2⟩
+    obtain ⟨h1, h2⟩ := unknownEvent_roundtrip T hT t src data 0 h; exact ⟨24, _, h1, h2⟩
   | ambiguous sa inum data =>
-    obtain ⟨d, h1, h2⟩ := ambiguous_roundtrip T hT sa inum data 0 h; exact ⟨24, d, h1, h2⟩
+    obtain ⟨h1, h2⟩ := ambiguous_roundtrip T hT sa inum data 0 h; exact ⟨24, _, h1, h2⟩
+
+end DaliVerif.Cmd
+
+namespace DaliVerif.Cmd
+
+/-- **every legal object's frame is the one the standard assigns, and that
+frame decodes to the object** -/
+theorem frame_standard (T : Tables) (hT2 : TableOK2 T) (c : Cmd) (h : WF T c) :
+    encode c = .ok ⟨bitsOf c, frameOf c⟩ ∧
+    decode T (bitsOf c) (frameOf c) (dtOf c) (mapFor c) = c := by
+  have hT := hT2.facts
+  cases c with
+  | generic b d => exact absurd h id
+  | unknownGear d => exact absurd h id
+  | unknownDevice d => exact absurd h id
+  | dapc a p => exact dapc_roundtrip T hT a p 0 none h
+  | standard cc a p => exact std_roundtrip T hT cc a p none h
+  | special cc p => exact special_roundtrip T hT cc p 0 none h
+  | shortSpecial cc a => exact shortSpecial_roundtrip T hT cc a 0 none h
+  | initialise cc b a => exact initialise_roundtrip T hT cc b a 0 none h
+  | devStd cc a => exact devStd_roundtrip T hT cc a 0 none h
+  | devInst cc a i => exact devInst_roundtrip T hT cc a i 0 none h
+  | devSpecial cc p1 p2 => exact devSpecial_roundtrip T hT cc p1 p2 0 none h
+  | event cls t src body => exact event_roundtrip T hT cls t src body 0 h
+  | unknownEvent t src data => exact unknownEvent_roundtrip T hT t src data 0 h
+  | ambiguous sa inum data => exact ambiguous_roundtrip T hT sa inum data 0 h
 
 end DaliVerif.Cmd
